@@ -20,9 +20,9 @@ from ..model import ClassInfo, FuncInfo, Repo, dotted, load_repo, opcode_registr
 from ..report import AnalysisError, Report
 from ..util import body_walk, src
 
-KINDS = ["bool", "int", "float", "str", "bytes", "other"]
+KINDS = ["true", "false", "int", "float", "str", "bytes", "other"]  # the two booleans are singleton kinds: identity tests decide them exactly
 CO = "fickling.fickle.ConstantOpcode"
-DECODED = {"int": {"int"}, "int_or_bool": {"int"}, "float": {"float"}, "str": {"str"}, "bytes": {"bytes"}, "bytes_or_str": {"str"}, "bytearray": {"bytes"}}
+DECODED = {"bool": {"bool"}, "int": {"int"}, "int_or_bool": {"int"}, "float": {"float"}, "str": {"str"}, "bytes": {"bytes"}, "bytes_or_str": {"str"}, "bytearray": {"bytes"}}
 
 
 def fold_attr(repo: Repo, c: ClassInfo, name: str, depth: int = 0):
@@ -92,7 +92,7 @@ def admits(repo: Repo, c: ClassInfo, kind: str, start: Optional[ClassInfo] = Non
     out: Set[str] = set()
 
     def is_inst(kind: str, tnames: List[str]) -> Optional[bool]:
-        table = {"bool": {"bool", "int"}, "int": {"int"}, "float": {"float"}, "str": {"str"}, "bytes": {"bytes"}, "other": set()}
+        table = {"true": {"bool", "int"}, "false": {"bool", "int"}, "int": {"int"}, "float": {"float"}, "str": {"str"}, "bytes": {"bytes"}, "other": set()}
         if kind == "other":
             return False if all(t in ("int", "float", "str", "bytes", "bool", "bytearray") for t in tnames) else None
         return any(t in table[kind] for t in tnames)
@@ -105,6 +105,12 @@ def admits(repo: Repo, c: ClassInfo, kind: str, start: Optional[ClassInfo] = Non
             tn = t.args[1]
             names = [dotted(x) for x in tn.elts] if isinstance(tn, ast.Tuple) else [dotted(tn)]
             return is_inst(kind, [n or "?" for n in names])
+        if isinstance(t, ast.Compare) and len(t.ops) == 1 and isinstance(t.ops[0], (ast.Is, ast.IsNot)) and dotted(t.left) == objname and isinstance(t.comparators[0], ast.Constant) and (t.comparators[0].value is None or isinstance(t.comparators[0].value, bool)):
+            cv = t.comparators[0].value
+            same = (cv is True and kind == "true") or (cv is False and kind == "false")
+            if cv is None and kind == "other":
+                return None  # None is one of the 'other' values
+            return same if isinstance(t.ops[0], ast.Is) else not same
         if isinstance(t, ast.Compare) and "struct_types" in src(t):
             return False  # cls.num_bytes not in cls.struct_types: configuration, not input
         if isinstance(t, ast.BoolOp):
@@ -147,14 +153,14 @@ def admits(repo: Repo, c: ClassInfo, kind: str, start: Optional[ClassInfo] = Non
                 v = st.value
                 txt = src(v)
                 if isinstance(v, ast.Call) and dotted(v.func) == "int" and v.args and dotted(v.args[0]) == objname:
-                    conv = {"bool": {"ok"}, "int": {"ok"}, "float": {"ok"}, "str": {"ok", "reject"}, "bytes": {"ok", "reject"}, "other": {"error"}}[kind]
+                    conv = {"true": {"ok"}, "false": {"ok"}, "int": {"ok"}, "float": {"ok"}, "str": {"ok", "reject"}, "bytes": {"ok", "reject"}, "other": {"error"}}[kind]
                     if "reject" in conv:
                         res.add("reject")
                     if "error" in conv:
                         return res | {"error"}
                     continue
                 if isinstance(v, ast.Call) and dotted(v.func) == "float" and v.args and dotted(v.args[0]) == objname:
-                    conv = {"bool": {"ok"}, "int": {"ok"}, "float": {"ok"}, "str": {"ok", "reject"}, "bytes": {"error"}, "other": {"error"}}[kind]
+                    conv = {"true": {"ok"}, "false": {"ok"}, "int": {"ok"}, "float": {"ok"}, "str": {"ok", "reject"}, "bytes": {"error"}, "other": {"error"}}[kind]
                     if "reject" in conv:
                         res.add("reject")
                     if "error" in conv:
@@ -202,10 +208,12 @@ def check_capture(repo: Repo, rep: Report):
         if repo.is_subclass(c, ci.qualname) and v is not None and v.cls is ci:
             lo, hi, _, _ = int_range(repo, c)
             if lo > hi:
-                for k in ("bool", "int"):
+                for k in ("true", "false", "int"):
                     table[c.name][k] = table[c.name][k] - {"accept"} | {"reject"}
-            elif lo <= 0 and hi >= 1 and table[c.name]["bool"] >= {"accept"}:
-                table[c.name]["bool"] = {"accept"}
+            else:
+                for k, val in (("true", 1), ("false", 0)):
+                    if table[c.name][k] >= {"accept"}:
+                        table[c.name][k] = {"accept"} if lo <= val <= hi else (table[c.name][k] - {"accept"}) | {"reject"}
     for kind in KINDS:
         winners: List[Tuple[ClassInfo, str]] = []
         stopped = None
@@ -227,13 +235,12 @@ def check_capture(repo: Repo, rep: Report):
             opname = repo.find_attr(c, "name")[1].value
             after = [x.name for x in by_name[opname].stack_after]
             dec = DECODED.get(after[0], set()) if after else set()
-            want = "int" if kind == "bool" else kind
+            want = "bool" if kind in ("true", "false") else kind
             if kind == "other":
                 rep.bad("C15.capture", c.qualname + ".validate", f"admits-other", f"{c.name}.validate admits values that are neither int, float, str nor bytes", c.module.relpath, c.node.lineno)
                 continue
-            if kind == "bool":
-                # no boolean constant opcode exists: every winner turns True/False into 1/0
-                rep.bad("C15.capture", c.qualname + ".validate", "captures:bool", f"a bool handed to ConstantOpcode.new is accepted by {c.name} (priority {dict((x.name, p) for x, p in reg)[c.name]}) whose opcode {opname} decodes to {after}: True arrives as the int 1, silently", c.module.relpath, c.node.lineno, what=f"bool -> {c.name}")
+            if kind in ("true", "false") and want not in dec:
+                rep.bad("C15.capture", c.qualname + ".validate", "captures:bool", f"{kind.title()} handed to ConstantOpcode.new is accepted by {c.name} (priority {dict((x.name, p) for x, p in reg)[c.name]}) whose opcode {opname} decodes to {after}: it arrives as the int {1 if kind == 'true' else 0}, silently", c.module.relpath, c.node.lineno, what=f"bool -> {c.name}")
                 continue
             if want in dec:
                 rep.ok("C15.capture", c.qualname + ".validate", f"{kind} -> may be built as {opname} ({how}), which decodes to {after[0]}", f"{c.module.relpath}:{c.node.lineno}")
@@ -676,9 +683,13 @@ def _big(n):
 
 INT_REPS = [0, 1, -1, 127, 128, -128, -129, 255, 256, 257, 65535, 65536, 65537, _big(31) - 1, _big(31), _big(31) + 1, -_big(31), -_big(31) - 1, _big(32) - 1, _big(32), _big(63) - 1, _big(63), _big(63) + 1, -_big(63), -_big(63) - 1, _big(64), _big(100), -_big(100)]
 FLOAT_REPS = [0.0, -0.0, 1.5, -2.25, 1e300, 5e-324, float("inf"), float("-inf"), float("nan"), 3.0]
-STR_REPS = ["", "a", "123", "-5", "Az09 ~", "it's", 'say "hi"', "a\\b", "\\u0041", "a\nb", "a\rb", "\x00", "\x1a\x7f", "\x80\xe9\xff", "\u0100\u20ac", "\U0001f600", "x" * 255, "x" * 256, "\xe9" * 127, "\xe9" * 128, "\u20ac" * 85, "\u20ac" * 86]
+STR_REPS = ["", "a", "123", "-5", "Az09 ~", "it's", 'say "hi"', "a\\b", "\\u0041", "a\nb", "a\rb", "\x00", "\x1a\x7f", "\x80\xe9\xff", "\u0100\u20ac", "\U0001f600", "\ud800", "\u200b", "x" * 255, "x" * 256, "\xe9" * 127, "\xe9" * 128, "\u20ac" * 85, "\u20ac" * 86]
 BYTES_REPS = [b"", b"a", b"123", b"\x00\xff", b"'", b"\n", b"\\", b"x" * 255, b"x" * 256]
 OTHER_REPS = [None, (1,), [1], {"a": 1}, 1 + 2j, bytearray(b"ab")]
+
+
+# opcodes whose value is implied by the opcode itself (pickletools: no argument, stack_after = [the value])
+_IMPLICIT = {"NEWTRUE": True, "NEWFALSE": False, "NONE": None}
 
 
 def _kind(v) -> str:
@@ -770,6 +781,8 @@ def check_round_trip(repo: Repo, rep: Report, tier: str):
             rep.bad("C15.round-trip", q, f"unreadable:{_kind(v)}", f"ConstantOpcode.new({lab}) picks {op.c.name}, whose bytes {data[:40]!r} the standard disassembler reads as {err or ops!r}", op.c.module.relpath, op.c.node.lineno)
             continue
         name, got = ops[0]
+        if name in _IMPLICIT:
+            got = _IMPLICIT[name]
         if _same(got, v):
             n_ok += 1
             rep.ok("C15.round-trip", q, f"[{lab}] -> {name}, read back as the same {_kind(v)}", where)
@@ -778,7 +791,7 @@ def check_round_trip(repo: Repo, rep: Report, tier: str):
         else:
             rep.bad("C15.round-trip", q, f"value-changed:{_kind(v)}", f"ConstantOpcode.new({lab}) picks {op.c.name} ({name}): the unpickler delivers {got!r}", op.c.module.relpath, op.c.node.lineno)
     rep.extra["round_trip_representatives"] = len(reps)
-    if n_ok < 40 and not any(f.rule == "C15.round-trip" for f in rep.findings):
+    if n_ok < 25 and not any(f.rule == "C15.round-trip" for f in rep.findings):
         raise AnalysisError(f"only {n_ok} representatives round-tripped (about 70 on the pinned tree): the interpreter lost the encoders")
 
 
@@ -871,12 +884,74 @@ def check_wire_values(repo: Repo, rep: Report, tier: str):
         raise AnalysisError(f"only {n_enc} opcode classes produced bytes under interpretation (about 45 on the pinned tree)")
 
 
+class _Demoted:
+    """Runs an over-approximating type-level rule and keeps its results as *information* only.  C15.capture, C15.range and
+    C15.length-units reason about all values of a kind, but 'may be accepted' there also covers values that are then
+    refused while the pickle is serialised (struct.error, TypeError in a comparison) - which the property allows.  The
+    deciding rules are the value-level ones; these stay in the evidence as the candidate list they are."""
+
+    def __init__(self, rep: Report):
+        self.rep = rep
+        self.units = rep.units
+        self.findings = []
+        self.n = 0
+
+    def ok(self, rule, construct, what, where="", nontrivial=True):
+        self.n += 1
+
+    def bad(self, rule, construct, detail, message, file, line, **kw):
+        self.n += 1
+        self.rep.info(f"type-level candidate (not a verdict) {rule}|{construct}|{detail}: {message[:200]}")
+
+    def info(self, t):
+        self.rep.info(t)
+
+
+def payload_text_reps(tier: str):
+    reps = [s for s in STR_REPS]
+    if tier == "thorough":
+        reps += ["x" * 65535, "x" * 65536, "\xe9" * 32768, "\u20ac" * 21845, "\u20ac" * 21846]
+    return reps
+
+
+def check_accepted_is_encodable(repo: Repo, rep: Report, rule: str, tier: str):
+    """Used by C16 / C18 (the payload of --inject / inject_payload is text): whatever ConstantOpcode.new accepts for a text
+    argument must also serialise - otherwise the failure comes from dumps(), after output has been opened / partly written."""
+    from ..objeval import Instance
+
+    oe = make_objeval(repo)
+    cref = oe.ref(repo.cls(CO))
+    n = 0
+    for v in payload_text_reps(tier):
+        lab = _label(v)
+        try:
+            op = cref.sa_attr("new")(v)
+        except PyRaise as pe:
+            rep.ok(rule, CO + ".new", f"[{lab}] refused up front ({pe.name}), before anything is written", "", nontrivial=False)
+            continue
+        except Unsupported as e:
+            raise AnalysisError(f"{rule}: cannot interpret ConstantOpcode.new for {lab}: {e}")
+        if not isinstance(op, Instance):
+            raise AnalysisError(f"ConstantOpcode.new({lab}) evaluated to {op!r}")
+        try:
+            data = op.sa_attr("encode")()
+        except PyRaise as pe:
+            rep.bad(rule, op.c.qualname, f"accepted-but-unencodable:{'long-text' if len(v) > 200 else 'text'}", f"ConstantOpcode.new({lab}) accepts the payload as {op.c.name}, but {op.c.name}.encode() then raises {pe.name}: the injection call succeeds and the failure only surfaces in dumps(), after the output has been opened / partly written", op.c.module.relpath, op.c.node.lineno)
+            continue
+        except Unsupported as e:
+            raise AnalysisError(f"{rule}: cannot interpret {op.c.name}.encode for {lab}: {e}")
+        n += 1
+        rep.ok(rule, op.c.qualname, f"[{lab}] accepted as {op.c.name} and serialises ({len(data)} bytes)", f"{op.c.module.relpath}:{op.c.node.lineno}")
+    if n < 10 and not any(f.rule == rule for f in rep.findings):
+        raise AnalysisError(f"{rule}: only {n} text payloads were accepted and serialised")
+
+
 def check_argument_path(repo: Repo, rep: Report):
     """Who-may-construct: library code that builds a constant opcode directly (not through ConstantOpcode.new, whose
     winners C15.capture vets) must not pick a class whose encoder this very run found not to round-trip."""
     defective: Dict[str, str] = {}
     for f in rep.findings:
-        if f.rule in ("C15.wire-format", "C15.length-units", "C15.capture", "C15.wire-values", "C15.round-trip"):
+        if f.rule in ("C15.wire-values", "C15.round-trip"):
             defective.setdefault(f.construct.split(".")[-1] if f.construct.split(".")[-1][:1].isupper() else f.construct.split(".")[-2], f.rule)
         if f.rule == "C15.text-escape":
             defective.setdefault("Unicode", f.rule)
@@ -917,17 +992,16 @@ def run(rep: Report, tier: str):
         "constant folding of the admitted integer ranges against the struct formats, and a shape comparison of every encoder "
         "with the pickletools argument descriptor it must be read back by. Per-value escaping/boundary correctness is not decided."
     )
-    rep.rule("C15.capture", "every class that can win ConstantOpcode.new for an input kind decodes to that kind", 5)
-    rep.rule("C15.range", "admitted integer ranges fit the struct format", 4)
-    rep.rule("C15.length-units", "length-prefixed constant classes bound the byte length of the encoded body in validate", 6)
     rep.rule("C15.text-escape", "the UNICODE text encoder writes, for every character class of the raw-unicode-escape reader, bytes that read back as the text (or refuses)", 12)
     rep.rule("C15.round-trip", "ConstantOpcode.new(v).encode(), interpreted, is read by the standard disassembler as one opcode carrying an equal value of the same kind - or the build refuses", 40)
     rep.rule("C15.wire-values", "every opcode class constructed directly encodes (interpreted) to bytes that disassemble back to that opcode and argument, or refuses", 25)
     rep.rule("C15.argument-path", "no helper constructs directly a constant opcode whose encoder does not round-trip", 2)
     rep.assume("pickletools argument descriptors and stack_after kinds are the specification of what the standard disassembler/unpickler reads")
-    check_capture(repo, rep)
-    check_range(repo, rep)
-    check_length_units(repo, rep)
+    dem = _Demoted(rep)
+    check_capture(repo, dem)
+    check_range(repo, dem)
+    check_length_units(repo, dem)
+    rep.extra["type_level_candidate_instances"] = dem.n
     check_text_escape(repo, rep)
     check_round_trip(repo, rep, tier)
     check_wire_values(repo, rep, tier)
